@@ -89,6 +89,8 @@ pub enum E {
     Index(Box<E>, Box<E>),
     Member(Box<E>, Name),
     Call(Name, Vec<E>),
+    /// call of a function inside a namespace, fully qualified: A::B::f(args)
+    QCall(Vec<Name>, Name, Vec<E>),
     /// call with explicit template arguments (rendered text)
     CallT(Name, String, Vec<E>),
     Method(Box<E>, Name, Vec<E>),
@@ -300,7 +302,7 @@ impl Profile {
             loops: true,
             seq_effects: true,
             implicit: true,
-            namespaces: false,
+            namespaces: true,
             resources: false,
             pipelines: false,
             pipeline_range: (1, 3),
@@ -341,6 +343,8 @@ pub struct Gen<'a> {
     cur_reads_statics: bool,
     cur_struct: Option<usize>,
     pub implicit_sites: u32,
+    cur_ns: Vec<Name>,
+    ns_pool: Vec<(Vec<Name>, Name)>,
     /// functions callable from the function being generated (indices into prog.funcs)
     callable: Vec<usize>,
     pub diverted: u32,
@@ -367,6 +371,8 @@ impl<'a> Gen<'a> {
             cur_reads_statics: false,
             cur_struct: None,
             implicit_sites: 0,
+            cur_ns: Vec::new(),
+            ns_pool: Vec::new(),
             callable: Vec::new(),
             diverted: 0,
             fuel: 4000,
@@ -802,7 +808,10 @@ impl<'a> Gen<'a> {
                     E::Call(f.name, args)
                 }
             }
-            None => E::Call(f.name, args),
+            None => {
+                let ns = self.prog.func_ns[fi].clone();
+                if ns.is_empty() { E::Call(f.name, args) } else { E::QCall(ns, f.name, args) }
+            }
         }
     }
 
@@ -1386,7 +1395,10 @@ impl<'a> Gen<'a> {
         out.extend(pre);
         let call = match f.template {
             Some((_, true)) => E::CallT(f.name, format!("{}", 1 + self.pick(5)), args),
-            _ => E::Call(f.name, args),
+            _ => {
+                let ns = self.prog.func_ns[fi].clone();
+                if ns.is_empty() { E::Call(f.name, args) } else { E::QCall(ns, f.name, args) }
+            }
         };
         if f.ret != Ty::Void {
             let n = self.declare(f.ret.clone(), false, false);
@@ -1397,6 +1409,29 @@ impl<'a> Gen<'a> {
     }
 
     // ---- top level
+
+    fn open_ns(&mut self) {
+        // a namespace may be reopened, but only under the same parent: a name that exists at two depths would make
+        // the qualified calls ambiguous
+        let here = self.cur_ns.clone();
+        let reopen: Vec<Name> = self.ns_pool.iter().filter(|(parent, _)| *parent == here).map(|(_, n)| *n).collect();
+        let name = if !reopen.is_empty() && self.pick(2) == 0 {
+            let k = self.pick(reopen.len());
+            reopen[k]
+        } else {
+            let n = self.fresh("NS");
+            self.ns_pool.push((here, n));
+            n
+        };
+        self.cur_ns.push(name);
+        self.prog.items.push(Item::NamespaceBegin(name));
+    }
+
+    fn close_ns(&mut self) {
+        if self.cur_ns.pop().is_some() {
+            self.prog.items.push(Item::NamespaceEnd);
+        }
+    }
 
     fn gen_struct(&mut self) {
         let name = self.fresh("S");
@@ -1525,7 +1560,7 @@ impl<'a> Gen<'a> {
             attrs: String::new(),
             method_of: None,
         });
-        self.prog.func_ns.push(Vec::new());
+        self.prog.func_ns.push(self.cur_ns.clone());
         self.prog.items.push(Item::Func(idx));
         self.callable.push(idx);
         idx
@@ -1600,7 +1635,32 @@ impl<'a> Gen<'a> {
         let nf = 2 + self.pick(self.prof.max_funcs.saturating_sub(1).max(1));
         let mut i = 0;
         while i < nf {
-            let fi = self.gen_func(None);
+            // namespaces: function groups inside (possibly nested, possibly reopened) namespaces; a function may
+            // share its name with a function of another namespace
+            let mut share = None;
+            if self.prof.namespaces {
+                if self.cur_ns.is_empty() {
+                    if self.pick(3) == 0 {
+                        self.open_ns();
+                    }
+                } else if self.pick(3) == 0 {
+                    self.close_ns();
+                } else if self.cur_ns.len() < 2 && self.pick(4) == 0 {
+                    self.open_ns();
+                }
+                if !self.cur_ns.is_empty() && self.pick(2) == 0 {
+                    let here = self.cur_ns.clone();
+                    let cands: Vec<Name> = (0..self.prog.funcs.len())
+                        .filter(|k| !self.prog.func_ns[*k].is_empty() && self.prog.func_ns[*k] != here)
+                        .map(|k| self.prog.funcs[k].name)
+                        .filter(|n| !(0..self.prog.funcs.len()).any(|k| self.prog.func_ns[k] == here && self.prog.funcs[k].name == *n))
+                        .collect();
+                    if !cands.is_empty() {
+                        share = Some(cands[self.pick(cands.len())]);
+                    }
+                }
+            }
+            let fi = self.gen_func(share);
             i += 1;
             if self.prof.overloads && self.pick(5) == 0 {
                 // an overload with a different first parameter type
@@ -1623,6 +1683,9 @@ impl<'a> Gen<'a> {
             if self.exhausted() && i >= 2 {
                 break;
             }
+        }
+        while !self.cur_ns.is_empty() {
+            self.close_ns();
         }
         if self.prof.pipelines {
             let (lo, hi) = self.prof.pipeline_range;
@@ -1954,7 +2017,7 @@ impl Renderer<'_> {
             E::Lit(s, _) => {
                 if s.starts_with('-') { 15 } else { 17 }
             }
-            E::Var(..) | E::EnumVal(..) | E::Ctor(..) | E::Call(..) | E::CallT(..) | E::Intrinsic(..) => 17,
+            E::Var(..) | E::EnumVal(..) | E::Ctor(..) | E::Call(..) | E::QCall(..) | E::CallT(..) | E::Intrinsic(..) => 17,
             E::Swizzle(..) | E::Index(..) | E::Member(..) | E::Method(..) | E::PostInc(..) => 16,
             E::Un(..) | E::Cast(..) => 15,
             E::Bin(op, ..) => match *op {
@@ -2085,6 +2148,14 @@ impl Renderer<'_> {
                 out.push_str(self.n(*f));
             }
             E::Call(f, args) => {
+                out.push_str(self.n(*f));
+                self.args(args, out);
+            }
+            E::QCall(path, f, args) => {
+                for p in path {
+                    out.push_str(self.n(*p));
+                    out.push_str("::");
+                }
                 out.push_str(self.n(*f));
                 self.args(args, out);
             }
